@@ -12,7 +12,7 @@
      mvn mu S n     = np.random.multivariate_normal(mu, S, size=n)   (n rows)
      sort           = the ordering applied inside pandas Index.difference
 
-   Python being modelled (copulas/multivariate/gaussian.py):
+   Python being modelled (copulas/multivariate/gaussian.py, after the fixes fa9ce3f / baa4f86):
 
      def _transform_to_normal(self, X):            # X : Series  ->  one-row frame
          U = []
@@ -26,9 +26,9 @@
          else:
              conditions = pd.Series(conditions)
              normal_conditions = self._transform_to_normal(conditions)[0]
-             normal_conditions = pd.Series(normal_conditions, index=conditions.index)
-                                                   # positional relabelling, DICT order;
-                                                   # ValueError on length mismatch
+             known = [column for column in self.columns if column in conditions.index]
+             normal_conditions = pd.Series(normal_conditions, index=known)
+                                                   # labelled in TRAINING order, like the scores
              means, covariance, columns = self._get_conditional_distribution(normal_conditions)
          samples = np.random.multivariate_normal(means, covariance, size=num_rows)
          return pd.DataFrame(samples, columns=columns)
@@ -37,12 +37,18 @@
          samples = self._get_normal_samples(num_rows, conditions)
          output = {}
          for column_name, univariate in zip(self.columns, self.univariates):
-             if conditions and column_name in conditions:      # bool(Series) raises
+             if conditions is not None and column_name in conditions:
                  output[column_name] = np.full(num_rows, conditions[column_name])
              else:
                  cdf = stats.norm.cdf(samples[column_name])    # lookup BY LABEL
                  output[column_name] = univariate.percent_point(cdf)
          return pd.DataFrame(data=output)
+
+   HISTORY.  Before fa9ce3f the scores were relabelled positionally with the conditions' own key order
+   (`pd.Series(normal_conditions, index=conditions.index)`, finding F19: the dict order changed the
+   conditional law; an unknown label raised ValueError(length mismatch)); before baa4f86 the loop tested
+   `if conditions and ...`, i.e. bool(Series), which raised for every Series (finding F11).  The model of
+   that version is in the git history of this file (commit 1b936f8).
 *)
 From Coq Require Import List Arith Bool.
 Import ListNotations.
@@ -56,7 +62,8 @@ Inductive error :=
 | ValueError_empty_draw           (* np.random.multivariate_normal with an empty mean:
                                      "cannot reshape array of size 0 into shape (0)" *)
 | ValueError_shape                (* pd.DataFrame(samples, columns=...) shape mismatch *)
-| ValueError_series_truth         (* bool(pd.Series): "The truth value of a Series is ambiguous" *)
+| ValueError_series_truth         (* bool(pd.Series): "The truth value of a Series is ambiguous";
+                                     not produced any more since baa4f86 (kept for the regression check) *)
 | KeyError (l : label).           (* .loc / samples[column_name] with an unknown label *)
 
 Inductive result (A : Type) := Ok (a : A) | Err (e : error).
@@ -146,14 +153,22 @@ Definition transform_conditions (conds : list (label * V)) : result (list V) :=
   | _ => Ok U
   end.
 
-(* pd.Series(normal_conditions, index=conditions.index): positional relabelling *)
-Definition relabel (conds : list (label * V)) (vals : list V) : result (list (label * V)) :=
-  if Nat.eqb (length vals) (length conds)
-  then Ok (combine (map fst conds) vals)
-  else Err (ValueError_length_mismatch (length vals) (length conds)).
+(* `column in conditions.index` / `column_name in conditions` *)
+Definition has_key (c : label) (conds : list (label * V)) : bool :=
+  match lookup c conds with Some _ => true | None => false end.
+
+(* known = [column for column in self.columns if column in conditions.index] *)
+Definition known (conds : list (label * V)) : list label :=
+  filter (fun c => has_key c conds) columns.
+
+(* pd.Series(values, index=labels): ValueError on a length mismatch *)
+Definition relabel (labels : list label) (vals : list V) : result (list (label * V)) :=
+  if Nat.eqb (length vals) (length labels)
+  then Ok (combine labels vals)
+  else Err (ValueError_length_mismatch (length vals) (length labels)).
 
 Definition normal_conditions (conds : list (label * V)) : result (list (label * V)) :=
-  bind (transform_conditions conds) (relabel conds).
+  bind (transform_conditions conds) (relabel (known conds)).
 
 (* columns1 of _get_conditional_distribution *)
 Definition columns1 (conds : list (label * V)) : list label :=
@@ -187,7 +202,9 @@ Definition normal_samples (num_rows : nat) (conditions : option (list (label * V
         end)
   end.
 
-(* body of the output loop for one training column *)
+(* body of the output loop for one training column.  The container kind no longer matters:
+   `conditions is not None and column_name in conditions` and `conditions[column_name]` mean the same
+   for a dict and for a Series (membership in / lookup by the index). *)
 Definition output_column (kind : container) (num_rows : nat)
            (conditions : option (list (label * V))) (samples : frame) (c : label)
   : result (label * list V) :=
@@ -196,17 +213,9 @@ Definition output_column (kind : container) (num_rows : nat)
   match conditions with
   | None => sampled
   | Some conds =>
-      match kind with
-      | Series => Err ValueError_series_truth      (* `if conditions` on a Series *)
-      | Dict =>
-          match conds with
-          | [] => sampled                            (* unreachable: {} fails earlier *)
-          | _ =>
-              match lookup c conds with
-              | Some v => Ok (c, repeat v num_rows)  (* np.full(num_rows, conditions[c]) *)
-              | None => sampled
-              end
-          end
+      match lookup c conds with
+      | Some v => Ok (c, repeat v num_rows)  (* np.full(num_rows, conditions[c]) *)
+      | None => sampled
       end
   end.
 
@@ -244,10 +253,10 @@ Definition run kind columns n conds :=
 (* training order [2;0;1], condition on column 0 *)
 Eval vm_compute in run Dict [2;0;1] 2 (Some [(0, 7)]).
 (* = Ok [(2, [2021; 2022]); (0, [7; 7]); (1, [1011; 1012])] *)
-Eval vm_compute in normal_conditions nat score [2;0;1] [(0, 7); (2, 5)].
-(* = Ok [(0, 205); (2, 7)] : label 0 carries the score of column 2 and vice versa *)
+Eval vm_compute in normal_conditions nat Demo.score [2;0;1] [(0, 7); (2, 5)].
+(* = Ok [(2, 205); (0, 7)] : every label carries its own score, in training order *)
 Eval vm_compute in run Dict [2;0;1] 2 (Some [(9, 7); (0, 1)]).
-(* = Err (ValueError_length_mismatch 1 2) *)
+(* the unknown label 9 is ignored: same as conditions {0: 1} *)
 Eval vm_compute in run Dict [2;0;1] 2 (Some [(9, 7)]).
 (* = Err ValueError_no_arrays *)
 Eval vm_compute in run Dict [2;0;1] 2 (Some []).
@@ -255,6 +264,6 @@ Eval vm_compute in run Dict [2;0;1] 2 (Some []).
 Eval vm_compute in run Dict [2;0] 2 (Some [(2, 7); (0, 1)]).
 (* = Err ValueError_empty_draw *)
 Eval vm_compute in run Series [2;0;1] 2 (Some [(0, 7)]).
-(* = Err ValueError_series_truth *)
+(* = the Dict result *)
 Eval vm_compute in run Dict [2;0;1] 2 None.
 End Demo.
